@@ -43,7 +43,7 @@ Proof.
 Qed.
 
 (* After calculate() on a fresh calculator every row 3i+k holds the finite difference of the gradient
-   for atom i, component k (forward and central), every row index is recorded exactly once — for the
+   for atom i, component k (forward and central), every row index is recorded (right after it was stored) exactly once — for the
    serial loop, for the process pool, and for ANY order in which the rows are handed back
    (any split over workers): the result does not depend on it. *)
 Theorem numhess_rows_complete :
@@ -53,7 +53,7 @@ Theorem numhess_rows_complete :
   let ser := calculate_serial E Meth grad cdiff m x h n (mkSt E [] H0) in
   let par := calculate_parallel E Meth grad cdiff m x h n (mkSt E [] H0) in
   let any := calculate_gen E Meth grad gen_row_parallel collect cdiff m x h n (mkSt E [] H0) in
-  calc_rows E ser = seq 0 (3 * n) /\ calc_rows E par = seq 0 (3 * n) /\ calc_rows E any = seq 0 (3 * n) /\
+  calc_rows E ser = seq 0 (3 * n) /\ calc_rows E par = seq 0 (3 * n) /\ Permutation (calc_rows E any) (seq 0 (3 * n)) /\
   forall i k j, i < n -> k < 3 ->
     hess E ser (3 * i + k) j = fd cdiff m x h i k j /\
     hess E par (3 * i + k) j = fd cdiff m x h i k j /\
@@ -65,17 +65,25 @@ Proof.
     by (intros; rewrite row_serial_flat; apply flat_of_row).
   assert (R2 : forall r, gen_row_parallel (gen_atom_idx r) (gen_component r) = r)
     by (intros; rewrite row_parallel_flat; apply flat_of_row).
+  assert (Idl : forall l : list (nat * (nat -> F)), (fun l => l) l = l) by reflexivity.
   destruct (rows_complete F F0 F1 Fadd Fmul Fsub Fopp Fdiv Finv Fltb Feqb Fsqrt Fabs Fpi Meth grad
-              gen_row_serial R1 (fun l => l) Hid cdiff m x h n H0) as [C1 H1].
+              gen_row_serial R1 (fun l => l) Hid cdiff m x h n H0) as [_ [C1 H1]].
   destruct (rows_complete F F0 F1 Fadd Fmul Fsub Fopp Fdiv Finv Fltb Feqb Fsqrt Fabs Fpi Meth grad
-              gen_row_parallel R2 (fun l => l) Hid cdiff m x h n H0) as [C2 H2].
+              gen_row_parallel R2 (fun l => l) Hid cdiff m x h n H0) as [_ [C2 H2]].
   destruct (rows_complete F F0 F1 Fadd Fmul Fsub Fopp Fdiv Finv Fltb Feqb Fsqrt Fabs Fpi Meth grad
-              gen_row_parallel R2 collect Hc cdiff m x h n H0) as [C3 H3].
-  split; [exact C1|]. split; [exact C2|]. split; [exact C3|].
+              gen_row_parallel R2 collect Hc cdiff m x h n H0) as [C3 [_ H3]].
+  pose proof (calculate_serial_eq F F0 F1 Fadd Fmul Fsub Fopp Fdiv Finv Fltb Feqb Fsqrt Fabs Fpi Meth grad
+                cdiff m x h n (mkSt E [] H0)) as Eser.
+  unfold ser. split; [etransitivity; [exact (f_equal (calc_rows E) Eser)|exact (C1 Idl)]|].
+  split; [exact (C2 Idl)|]. split; [exact C3|].
   intros i k j Hi Hk.
   pose proof (H1 i k j Hi Hk) as P1. pose proof (H2 i k j Hi Hk) as P2. pose proof (H3 i k j Hi Hk) as P3.
   unfold flat in P1, P2, P3.
-  split; [|split]; (etransitivity; [first [exact P1|exact P2|exact P3]|destruct cdiff; reflexivity]).
+  split; [|split].
+  - etransitivity; [exact (f_equal (fun s => hess E s (3 * i + k) j) Eser)|].
+    etransitivity; [exact P1|destruct cdiff; reflexivity].
+  - etransitivity; [exact P2|destruct cdiff; reflexivity].
+  - etransitivity; [exact P3|destruct cdiff; reflexivity].
 Qed.
 
 (* Two-level mode, before symmetrisation: raw row r comes from the high-level method iff its atom r/3 was
@@ -97,18 +105,23 @@ Theorem hybrid_rows_exact :
 Proof.
   intros lm hm x h n hidxs Hnd Hlt.
   assert (Hid : forall l : list (nat * (nat -> F)), Permutation l ((fun l => l) l)) by (intros; apply Permutation_refl).
+  assert (Idl : forall l : list (nat * (nat -> F)), (fun l => l) l = l) by reflexivity.
   assert (R1 : forall r, gen_row_serial (gen_atom_idx r) (gen_component r) = r)
     by (intros; rewrite row_serial_flat; apply flat_of_row).
   assert (R2 : forall r, gen_row_parallel (gen_atom_idx r) (gen_component r) = r)
     by (intros; rewrite row_parallel_flat; apply flat_of_row).
   split.
   - destruct (hybrid_spec F F0 F1 Fadd Fmul Fsub Fopp Fdiv Finv Fltb Feqb Fsqrt Fabs Fpi Meth grad
-                gen_row_serial R1 (fun l => l) Hid lm hm x h n hidxs Hnd Hlt) as [s2 [Hs [Hr Hc]]].
-    exists s2. split; [exact Hs|]. split; [|exact Hc].
-    intros r j Hrn. etransitivity; [exact (Hr r j Hrn)|].
-    unfold gen_atom_idx, gen_component. destruct (mem (r / 3) hidxs); reflexivity.
+                gen_row_serial R1 (fun l => l) Hid lm hm x h n hidxs Idl Hnd Hlt) as [s2 [Hs [Hr Hc]]].
+    exists s2. split.
+    + etransitivity; [|exact Hs].
+      apply (hybrid_ext F F0 F1 Fadd Fmul Fsub Fopp Fdiv Finv Fltb Feqb Fsqrt Fabs Fpi Meth).
+      intros. apply (calculate_serial_eq F F0 F1 Fadd Fmul Fsub Fopp Fdiv Finv Fltb Feqb Fsqrt Fabs Fpi Meth grad).
+    + split; [|exact Hc].
+      intros r j Hrn. etransitivity; [exact (Hr r j Hrn)|].
+      unfold gen_atom_idx, gen_component. destruct (mem (r / 3) hidxs); reflexivity.
   - destruct (hybrid_spec F F0 F1 Fadd Fmul Fsub Fopp Fdiv Finv Fltb Feqb Fsqrt Fabs Fpi Meth grad
-                gen_row_parallel R2 (fun l => l) Hid lm hm x h n hidxs Hnd Hlt) as [s2 [Hs [Hr Hc]]].
+                gen_row_parallel R2 (fun l => l) Hid lm hm x h n hidxs Idl Hnd Hlt) as [s2 [Hs [Hr Hc]]].
     exists s2. split; [exact Hs|]. split; [|exact Hc].
     intros r j Hrn. etransitivity; [exact (Hr r j Hrn)|].
     unfold gen_atom_idx, gen_component. destruct (mem (r / 3) hidxs); reflexivity.
